@@ -4,14 +4,23 @@
 //! harness -> relay: frames `[u32 be length][bytes]`; a frame is written to stdout in ONE write,
 //!   and only after the stdout pipe has been drained by the client (FIONREAD == 0), so the harness
 //!   controls exactly how the byte stream is segmented into reads. Control frames have length
-//!   0xFFFF_FFFF followed by one byte: 1 = close stdout and keep running, 2 = exit(0), 3 = exit(1).
+//!   0xFFFF_FFFF followed by one byte: 1 = close stdout and keep running, 2 = exit(0), 3 = exit(1),
+//!   4 = stepping mode (stdin is read only while the harness has granted a message; the stdin pipe is
+//!   shrunk to one page so that a client writing more than that blocks - a slow uplink), 5 = grant
+//!   one more message.
 //! relay -> harness: first 4 bytes = pid (be), then the raw bytes the client wrote to our stdin.
 use std::{
     io::{Read, Write},
     os::unix::{io::AsRawFd, net::UnixStream},
+    sync::{
+        atomic::{AtomicBool, AtomicUsize, Ordering},
+        Arc,
+    },
     thread,
     time::Duration,
 };
+
+const MARKER: &[u8] = b"]]>]]>";
 
 fn pipe_pending(fd: i32) -> i32 {
     let mut n: libc::c_int = 0;
@@ -29,16 +38,36 @@ fn main() {
     let mut sock = UnixStream::connect(path).expect("connect relay socket");
     sock.write_all(&std::process::id().to_be_bytes()).expect("send pid");
     let mut up = sock.try_clone().expect("clone");
+    let stepping = Arc::new(AtomicBool::new(false));
+    let credits = Arc::new(AtomicUsize::new(0));
+    let (stepping2, credits2) = (stepping.clone(), credits.clone());
     // client -> harness
     _ = thread::spawn(move || {
         let mut stdin = std::io::stdin().lock();
         let mut buf = [0u8; 65536];
+        let mut tail: Vec<u8> = Vec::new();
         loop {
-            match stdin.read(&mut buf) {
+            let step = stepping2.load(Ordering::SeqCst);
+            if step && credits2.load(Ordering::SeqCst) == 0 {
+                thread::sleep(Duration::from_micros(200));
+                continue;
+            }
+            let want = if step { 256 } else { buf.len() };
+            match stdin.read(&mut buf[..want]) {
                 Ok(0) | Err(_) => break,
                 Ok(n) => {
                     if up.write_all(&buf[..n]).is_err() {
                         break;
+                    }
+                    if step {
+                        // every complete message uses up one grant
+                        tail.extend_from_slice(&buf[..n]);
+                        while let Some(pos) = tail.windows(MARKER.len()).position(|w| w == MARKER) {
+                            _ = tail.drain(..pos + MARKER.len());
+                            _ = credits2.fetch_update(Ordering::SeqCst, Ordering::SeqCst, |c| Some(c.saturating_sub(1)));
+                        }
+                        let keep = tail.len().min(MARKER.len() - 1);
+                        _ = tail.drain(..tail.len() - keep);
                     }
                 }
             }
@@ -69,6 +98,14 @@ fn main() {
                     closed = true;
                 }
                 2 => std::process::exit(0),
+                4 => {
+                    // SAFETY: fcntl on our own stdin pipe (F_SETPIPE_SZ rounds up to one page)
+                    unsafe {
+                        _ = libc::fcntl(0, libc::F_SETPIPE_SZ, 4096);
+                    }
+                    stepping.store(true, Ordering::SeqCst);
+                }
+                5 => _ = credits.fetch_add(1, Ordering::SeqCst),
                 _ => std::process::exit(1),
             }
             continue;
